@@ -98,11 +98,18 @@ class HApp(BM.Bromelia):
 
     def __init__(self, nworkers=1):
         _reset_class_state(BM.Worker)
+        # the REAL constructor builds the application object; only its file I/O is stubbed, and every primitive it created
+        # (the three Barriers, under whatever name) becomes a scheduler stand-in
+        keep = (BM._convert_file_to_config, BM.get_app_name)
+        BM._convert_file_to_config, BM.get_app_name = (lambda f, g: []), (lambda f: "app")
+        try:
+            BM.Bromelia.__init__(self)
+        finally:
+            BM._convert_file_to_config, BM.get_app_name = keep
+        CS.standinize(self, _PRIMS, class_level=False)
         self.ws = [self.WORKER(APP_IDS[i]) for i in range(nworkers)]
         self.w = self.ws[0]
         self.associations = {APP_IDS[i]: w for i, w in enumerate(self.ws)}
-        self.send_threshold, self.answer_threshold, self.request_threshold = CS.HBarrier(), CS.HBarrier(), CS.HBarrier()
-        self.testing_answer = None
     send_message = CS.coroutinize(BM.Bromelia.send_message, BLOCKING, rebind={"PendingAnswer": HPending}, points=POINTS)
     handler_pending_answers = CS.coroutinize(BM.Bromelia.handler_pending_answers, BLOCKING, points=POINTS)
 
